@@ -7,7 +7,8 @@ import shutil
 import gen
 from common import Broken, VERIF, NCPU, run_th, parallel_th, rundir, tlc, tlc_counterexample, log
 
-VM_BUDGET = 100000      # instructions the real VM may execute
+VM_BUDGET = 60000       # instructions the real VM may execute (final-state comparison)
+VM_BUDGET_EVERY = 6000  # ... when every stop is logged and validated (C07)
 K = 20                  # upper bound on VM instructions per reference step (see DESIGN.md C01)
 
 
@@ -21,9 +22,11 @@ def generate(seed, n, canon, **kw):
     return out
 
 
-def run_real(chk, th, progs, budget=VM_BUDGET, want_prog=False, tag="run"):
+def run_real(chk, th, progs, want_prog=False, tag="run"):
     """compile + stepping run of every program on the real code; attaches p['run'] (or p['abort'])."""
-    jobs = [{"i": i, "files": p["files"], "main": p["main"], "budget": budget, "every": bool(p["canon"]), "prog": want_prog}
+    for p in progs:
+        p["budget"] = VM_BUDGET_EVERY if p["canon"] else VM_BUDGET
+    jobs = [{"i": i, "files": p["files"], "main": p["main"], "budget": p["budget"], "every": bool(p["canon"]), "prog": want_prog}
             for i, p in enumerate(progs)]
     for recs, rc, err, part in parallel_th(th, ["steptrace"], jobs, timeout=900):
         for r in recs:
@@ -46,8 +49,10 @@ def trace_events(p, ai):
     run = p["run"]
     every = bool(p["canon"])
     finished = run["finished"]
-    minsteps = VM_BUDGET // K
-    lim = (4 * run["steps"] + 1000) if finished else minsteps
+    minsteps = p["budget"] // K
+    # final-only mode of a divergent run: the reference machine only has to survive minsteps steps;
+    # otherwise it must be able to replay everything the VM did
+    lim = (4 * run["steps"] + 1000) if (finished or every) else minsteps
     evs = [{"e": "load", "a": ai, "every": every, "lim": lim}]
     for s in run["stops"]:
         if s["done"]:
@@ -67,7 +72,7 @@ def validate(chk, progs, name="sem", batches=None, timeout=1500, invariants=("Se
     batches = batches or min(NCPU, max(1, len(usable) // 3))
     groups = [usable[i::batches] for i in range(batches)]
     d = rundir(chk.pid, name + "_in")
-    cfg = ("SPECIFICATION TSpec\nINVARIANT %s NotAccepted\nCONSTRAINT Progress\nPOSTCONDITION ReportProgress\n"
+    cfg = ("SPECIFICATION TSpec\nINVARIANT %s \nCONSTRAINT Progress\nPOSTCONDITION Accepted\n"
            "CHECK_DEADLOCK FALSE\n") % " ".join(invariants)
     from concurrent.futures import ThreadPoolExecutor
 
@@ -88,7 +93,7 @@ def validate(chk, progs, name="sem", batches=None, timeout=1500, invariants=("Se
                 k += len(evs)
         env = {"ASTS": ap, "TRACE": tp}
         r = tlc("TheoSemTrace", cfg, chk.pid, "%s%d" % (name, gi), env=env, workers=1, timeout=timeout, xmx="4g", deque=True)
-        if r.violated != "NotAccepted" and not r.error and not r.timed_out:
+        if r.violated is not None and not r.error and not r.timed_out:
             r2 = tlc("TheoSemTrace", cfg, chk.pid, "%s%d_again" % (name, gi), env=env, workers=1, timeout=timeout, xmx="4g", deque=True)
             if r2.violated != r.violated:
                 raise Broken("trace verdict not repeatable: %s vs %s" % (r.violated, r2.violated))
@@ -102,7 +107,7 @@ def validate(chk, progs, name="sem", batches=None, timeout=1500, invariants=("Se
             raise Broken("TheoSemTrace: %s" % (r.error or "timeout"))
         chk.add("spec_states_in_validation", r.distinct)
         events += nev
-        if r.violated == "NotAccepted":
+        if r.violated is None:
             accepted += len(g)
             continue
         m = re.search(r'"maxl", (\d+), "of", (\d+)', r.out)
@@ -115,7 +120,7 @@ def validate(chk, progs, name="sem", batches=None, timeout=1500, invariants=("Se
               "ast": culprit and culprit["ast"]}
         evs = [json.loads(x) for x in open(tp)]
         bad = evs[at - 1] if 0 < at <= len(evs) else None
-        if r.violated:
+        if r.violated != "postcondition":
             chk.violation("sem:inv:%s" % r.violated, "TheoSemTrace: invariant %s violated while validating a real execution\n%s"
                           % (r.violated, tlc_counterexample(r, 2500)), dict(rp, violated=r.violated))
         else:
